@@ -483,8 +483,7 @@ Definition sx_mnode (d : mnode) : sx :=
 Definition sx_medge (e : medge) : sx :=
   match e with (a, b, l) => L [sx_onat' a; sx_onat' b; sx_otext l] end.
 Definition sx_mer (x : list mnode * list medge) : sx :=
-  L [sx_list sx_mnode (fst x); sx_list sx_medge (snd x);
-     sx_list sx_otext (fst (mer_text x)); sx_list sx_otext (snd (mer_text x))].
+  L [sx_list sx_mnode (fst x); sx_list sx_medge (snd x)].
 
 Definition sx_chart (c : option (list text)) : sx :=
   match c with Some ls => L (map sx_text ls) | None => A (-1)%Z end.
